@@ -112,6 +112,17 @@ func diffNewLines() *Result {
 		}
 		srcs = append(srcs, b)
 	}
+	// whole sources: the scanner may have read ahead of its final position (an unterminated string is
+	// scanned to the end and given up), so its table is lineStarts(src, m) for SOME m >= p: it must be a
+	// prefix of lineStarts(src, |src|) and contain every line start <= p  (Lean: C04.scan_is_lineStarts
+	// speaks about `reach`, the furthest offset read, not about the final p)
+	type whole struct {
+		src  []byte
+		p    int
+		real []int
+	}
+	var wholes []whole
+	var wlines []string
 	for _, src := range srcs {
 		func() {
 			defer func() { recover() }()
@@ -129,9 +140,35 @@ func diffNewLines() *Result {
 			if m < 0 {
 				m = 0
 			}
-			lines = append(lines, fmt.Sprintf("nlstarts %s %d", hexOrDash(src), m))
-			real = append(real, natsStr(lx.VerifNewLinesData()))
+			wholes = append(wholes, whole{src, m, lx.VerifNewLinesData()})
+			wlines = append(wlines, fmt.Sprintf("nlstarts %s %d", hexOrDash(src), len(src)))
 		}()
+	}
+	if wans, err := modelAnswers(wlines); err != nil {
+		r.Mismatches = append(r.Mismatches, Mismatch{Op: "<driver>", Model: err.Error()})
+	} else {
+		for i, w := range wholes {
+			r.Cases++
+			var full []int
+			if wans[i] != "-" {
+				for _, x := range strings.Split(wans[i], ",") {
+					v, _ := strconv.Atoi(x)
+					full = append(full, v)
+				}
+			}
+			ok := len(w.real) <= len(full)
+			for j := 0; ok && j < len(w.real); j++ {
+				ok = w.real[j] == full[j]
+			}
+			for j := len(w.real); ok && j < len(full); j++ {
+				if full[j] <= w.p {
+					ok = false // a line start the scanner has passed is missing
+				}
+			}
+			if !ok && len(r.Mismatches) < 20 {
+				r.Mismatches = append(r.Mismatches, Mismatch{Op: fmt.Sprintf("%s (final p = %d)", wlines[i], w.p), Model: "a prefix of " + wans[i] + " covering every start <= p", Real: natsStr(w.real)})
+			}
+		}
 	}
 	diffLines(r, lines, real)
 	r.sample(map[string]string{"op": lines[0], "real": real[0]})
